@@ -57,7 +57,17 @@ func c10Mutate(t *rapid.T, m Message, base []byte) c10Input {
 	if tail >= 0 {
 		ops = append(ops, "splice-record", "splice-record", "swap-records",
 			"dup-record", "delete-record", "nonminimal", "tlv-length",
-			"tlv-length")
+			"tlv-length", "record-value", "record-value")
+	}
+	if tail >= 0 || pure || hasExtra {
+		// typed records the value generators leave out (flags that are
+		// zero, optional fields), with values of the usual widths
+		ops = append(ops, "small-record", "small-record")
+	}
+	if pure && tail >= 0 {
+		// pure-TLV messages: every field is a typed record
+		ops = append(ops, "record-value", "record-value", "record-value",
+			"small-record", "small-record")
 	}
 	op := rapid.SampledFrom(ops).Draw(t, "op")
 	in.labels = append(in.labels, "op="+op)
@@ -177,6 +187,70 @@ func c10Mutate(t *rapid.T, m Message, base []byte) c10Input {
 			rs = append(rs, c10ref.Rec{Type: typ, Val: unknownVal()})
 		}
 		b = rebuild(rs)
+
+	case "record-value":
+		// Same stream shape, another value in one typed record: flag
+		// and enum bytes take values the repository's generators never
+		// produce (reserved bits, all ones), integers their extremes.
+		// Added after seeded change C10e.
+		rs := append([]c10ref.Rec(nil), recs...)
+		i := rapid.IntRange(0, len(rs)-1).Draw(t, "rvAt")
+		v := append([]byte(nil), rs[i].Val...)
+		if len(v) == 0 {
+			break
+		}
+		switch rapid.IntRange(0, 4).Draw(t, "rvHow") {
+		case 0:
+			pos := rapid.IntRange(0, len(v)-1).Draw(t, "rvPos")
+			v[pos] = 1 << uint(rapid.IntRange(0, 7).Draw(t, "rvBit"))
+		case 1:
+			pos := rapid.IntRange(0, len(v)-1).Draw(t, "rvPos")
+			v[pos] ^= 1 << uint(rapid.IntRange(0, 7).Draw(t, "rvBit"))
+		case 2:
+			for k := range v {
+				v[k] = 0xff
+			}
+		case 3:
+			for k := range v {
+				v[k] = 0
+			}
+		default:
+			v = c10Bytes(t, len(v), "rvVal")
+		}
+		rs[i].Val = v
+		b = rebuild(rs)
+
+	case "small-record":
+		typ := rapid.Uint64Range(0, 30).Draw(t, "srType")
+		rs := append([]c10ref.Rec(nil), recs...)
+		dup := false
+		for _, r := range rs {
+			if r.Type == typ {
+				dup = true
+			}
+		}
+		if dup {
+			break
+		}
+		n := rapid.SampledFrom([]int{1, 1, 2, 3, 4, 8, 32, 33, 34,
+			64}).Draw(t, "srLen")
+		v := c10Bytes(t, n, "srVal")
+		if n <= 2 && rapid.Bool().Draw(t, "srOneBit") {
+			for k := range v {
+				v[k] = 0
+			}
+			v[rapid.IntRange(0, n-1).Draw(t, "srPos")] =
+				1 << uint(rapid.IntRange(0, 7).Draw(t, "srBit"))
+		}
+		rs = append(rs, c10ref.Rec{Type: typ, Val: v})
+		sort.SliceStable(rs, func(i, j int) bool {
+			return rs[i].Type < rs[j].Type
+		})
+		if tail >= 0 {
+			b = rebuild(rs)
+		} else {
+			b = append(b, c10ref.Encode(rs)...)
+		}
 
 	case "swap-records":
 		if len(recs) < 2 {
